@@ -360,6 +360,10 @@ func hC06Pairs(pfx string) {
 			for j := range want {
 				vfAssert(pfx+hC06PairIDs[j], hC06Same(insts[j].(interface{ Type() types.Type }).Type(), want[j]))
 			}
+			ps := m.Funcs[k].Params
+			vfAssert(pfx+".pairs.param-pointer-to-named", hC06Same(ps[4].Type(), &types.PointerType{ElemType: td, AddrSpace: types.AddrSpace(sets[k].as)}))
+			vfAssert(pfx+".pairs.param-pointer", hC06Same(ps[5].Type(), &types.PointerType{ElemType: types.NewInt(sets[k].w), AddrSpace: types.AddrSpace(sets[k].as)}))
+			vfAssert(pfx+".pairs.param-vector", hC06Same(ps[0].Type(), &types.VectorType{Len: n, ElemType: types.NewInt(sets[k].w), Scalable: sets[k].scal}))
 			e := m.Globals[2*k+1].Init
 			vfAssert(pfx+".pairs.gep-expr", hC06Same(e.Type(), &types.PointerType{ElemType: types.I64, AddrSpace: types.AddrSpace(sets[k].as)}))
 			vfAssert(pfx+".pairs.global", hC06Same(m.Globals[2*k].Type(), &types.PointerType{ElemType: td, AddrSpace: types.AddrSpace(sets[k].as)}))
